@@ -572,3 +572,233 @@ Proof.
   assert (N3 : no_copy (tr w3)) by (eapply relocate_no_copy; [exact Hc| |exact Er]; rewrite Ea, Ef; exact N).
   destruct o; intros H; inversion H; subst; exact N3.
 Qed.
+
+(* ================================================================ HashSet::pvMergeTo: completeness *)
+
+Lemma skipn_firstn_app (b X : list item) i : (i <= length b)%nat -> skipn i (firstn i b ++ X) = X.
+Proof.
+  intros H. rewrite skipn_app. rewrite firstn_length. replace (Nat.min i (length b)) with i by lia.
+  rewrite Nat.sub_diag. simpl. rewrite skipn_all2; [reflexivity|rewrite firstn_length; lia].
+Qed.
+
+Lemma skipn_bucket_remove b i : (i < length b)%nat -> Permutation (skipn i (bucket_remove b i)) (skipn (S i) b).
+Proof.
+  intros H. unfold bucket_remove. destruct (rev (skipn (S i) b)) as [|l rp] eqn:E;
+  apply (f_equal (@rev Z)) in E; rewrite rev_involutive in E; rewrite E; simpl.
+  - rewrite <- (app_nil_r (firstn i b)). rewrite skipn_firstn_app; [reflexivity|lia].
+  - rewrite skipn_firstn_app; [|lia]. apply Permutation_cons_append.
+Qed.
+
+Lemma skipn_nth_cons (b : list item) i : (i < length b)%nat -> skipn i b = nth i b 0 :: skipn (S i) b.
+Proof.
+  revert i; induction b as [|a b IH]; intros i H; simpl in H; [lia|].
+  destruct i; [reflexivity|]. simpl. apply IH. lia.
+Qed.
+
+Definition hvisited (st : mstate) : list item := concat (s_done st) ++ skipn (s_idx st) (s_cur st).
+Definition hdone_inv (multi : bool) (st : mstate) : Prop :=
+  forall y, In y (hvisited st) -> multi = false /\ has_key (s_dst st) (key y) = true.
+
+Lemma hstep_done c multi st : (s_idx st <= length (s_cur st))%nat -> hdone_inv multi st -> hdone_inv multi (hstep c multi st).
+Proof.
+  unfold hdone_inv, hvisited. hstep_cases c multi st; intros L H y I; simpl in *; try (apply H; exact I).
+  - (* next bucket *)
+    rewrite skipn_all in I. rewrite app_nil_r in I. rewrite concat_app in I. simpl in I. rewrite app_nil_r in I.
+    apply H. exact I.
+  - (* refused *)
+    assert (Hi : (i < length b)%nat) by lia.
+    apply in_app_or in I. destruct I as [I|I]; [apply H; apply in_or_app; left; exact I|].
+    rewrite (skipn_nth_cons b i Hi) in I. destruct I as [<-|I].
+    + apply andb_prop in Eh. destruct Eh as [E1 E2]. split; [destruct multi; [discriminate|reflexivity]|exact E2].
+    + apply H. apply in_or_app. right. exact I.
+  - (* extracted *)
+    assert (Hi : (i < length b)%nat) by lia.
+    assert (G : In y (concat dn ++ skipn (S i) b)).
+    { apply in_app_or in I. apply in_or_app. destruct I as [I|I]; [left; exact I|right].
+      eapply Permutation_in; [apply skipn_bucket_remove; exact Hi|exact I]. }
+    destruct (H y G) as [M K]. split; [exact M|apply has_key_app; exact K].
+Qed.
+
+Lemma hstep_finished_shape c multi st : (s_stat st = Finished -> s_idx st = O /\ s_todo st = []) ->
+  s_stat (hstep c multi st) = Finished -> s_idx (hstep c multi st) = O /\ s_todo (hstep c multi st) = [].
+Proof.
+  hstep_cases c multi st; intros F Hs; try discriminate; try (split; reflexivity); try (apply F; reflexivity).
+Qed.
+
+(* a HashSet merge that ran to completion left in the source only items whose key the (unique-key) destination
+   holds; nothing when the destination is multi-key *)
+Theorem hmerge_finished_complete c multi src dst w n :
+  s_stat (hrun c multi n (hinit src dst w)) = Finished ->
+  forall y, In y (src_items (hrun c multi n (hinit src dst w))) ->
+    multi = false /\ has_key (s_dst (hrun c multi n (hinit src dst w))) (key y) = true.
+Proof.
+  assert (G : hdone_inv multi (hrun c multi n (hinit src dst w)) /\
+              (s_stat (hrun c multi n (hinit src dst w)) = Finished ->
+               s_idx (hrun c multi n (hinit src dst w)) = O /\ s_todo (hrun c multi n (hinit src dst w)) = [])).
+  { induction n; simpl.
+    - split; [intros y []|discriminate].
+    - destruct IHn as [D F]. split.
+      + apply hstep_done; [exact (proj2 (hrun_inv c multi _ n _ (hinit_inv src dst w)))|exact D].
+      + apply hstep_finished_shape. exact F. }
+  intros Hs y I. destruct G as [D F]. destruct (F Hs) as [Fi Ft].
+  apply D. unfold hvisited. unfold src_items in I. rewrite Ft in I. simpl in I. rewrite app_nil_r in I.
+  rewrite Fi. simpl. exact I.
+Qed.
+
+(* with no failure scheduled the hash merge finishes within hfuel iterations *)
+Definition hmeasure (st : mstate) : nat := s_idx st + length (concat (s_todo st)) + length (s_todo st).
+
+Lemma hstep_quiet_progress c multi st : s_stat st = Running -> quiet (s_w st) -> (s_idx st <= length (s_cur st))%nat ->
+  (hmeasure st = O /\ s_stat (hstep c multi st) = Finished) \/
+  (s_stat (hstep c multi st) = Running /\ quiet (s_w (hstep c multi st)) /\ S (hmeasure (hstep c multi st)) = hmeasure st).
+Proof.
+  destruct st as [dn b idx todo dst w stat]. unfold hmeasure. simpl. intros -> Q L. unfold hstep. simpl.
+  destruct idx as [|i]; simpl.
+  - destruct todo as [|b2 t]; simpl; [left; split; reflexivity|].
+    right. split; [reflexivity|]. split; [exact Q|]. rewrite app_length. lia.
+  - right. destruct (quiet_step_func w Q) as (w1 & E1 & Q1). rewrite E1.
+    destruct (negb multi && has_key dst (key (nth i b 0))); simpl; [split; [reflexivity|split; [exact Q1|lia]]|].
+    destruct (quiet_step_alloc w1 Q1) as (w2 & E2 & Q2). rewrite E2.
+    destruct (quiet_extract_reloc c w2 (nth i b 0) (repl_of b i) Q2) as (w3 & E3 & Q3). rewrite E3. simpl.
+    split; [reflexivity|split; [exact Q3|lia]].
+Qed.
+
+Lemma hrun_stable c multi n st : s_stat st <> Running -> hrun c multi n st = st.
+Proof.
+  intros H. induction n; [reflexivity|]. unfold hrun in *. simpl. rewrite IHn.
+  unfold hstep. destruct (s_stat st); [congruence|reflexivity|reflexivity].
+Qed.
+
+Theorem hmerge_quiet_finishes c multi src dst w : quiet w -> s_stat (hmerge c multi src dst w) = Finished.
+Proof.
+  intros Q. unfold hmerge.
+  assert (G : forall n st, s_stat st = Running -> quiet (s_w st) -> (s_idx st <= length (s_cur st))%nat ->
+              (hmeasure st < n)%nat -> s_stat (hrun c multi n st) = Finished).
+  { induction n; intros st R Qs L M; [lia|].
+    unfold hrun. rewrite iter_shift. fold (hrun c multi n (hstep c multi st)).
+    destruct (hstep_quiet_progress c multi st R Qs L) as [[E F]|(R' & Q' & M')].
+    - rewrite hrun_stable; [exact F|congruence].
+    - apply IHn; [exact R'|exact Q'| |lia].
+      assert (I : hinv (src_items st ++ s_dst st) st) by (split; [reflexivity|exact L]).
+      exact (proj2 (hstep_inv c multi _ st I)). }
+  apply G; simpl; [reflexivity|exact Q|lia|].
+  unfold hmeasure, hfuel. simpl. lia.
+Qed.
+
+(* ================================================================ pvMergeToLinear keeps a unique-key destination unique
+   (this loop relies on both trees being sorted: stated for strictly key-sorted inputs) *)
+
+Fixpoint ksorted (l : list item) : Prop :=
+  match l with [] => True | a :: r => (forall b, In b r -> key a < key b) /\ ksorted r end.
+
+Lemma ksorted_app l1 : forall l2, ksorted (l1 ++ l2) <->
+  ksorted l1 /\ ksorted l2 /\ (forall a b, In a l1 -> In b l2 -> key a < key b).
+Proof.
+  induction l1 as [|a l1 IH]; intros l2; simpl.
+  - split; [intros H; repeat split; auto; intros a b []|tauto].
+  - rewrite IH. split.
+    + intros (Ha & S1 & S2 & C). repeat split; auto.
+      * intros b Hb. apply Ha. apply in_or_app. left. exact Hb.
+      * intros x b [<-|Hx] Hb; [apply Ha; apply in_or_app; right; exact Hb|apply C; assumption].
+    + intros ((Ha & S1) & S2 & C). repeat split; auto.
+      intros b Hb. apply in_app_or in Hb. destruct Hb as [Hb|Hb]; [apply Ha; exact Hb|apply C; [left; reflexivity|exact Hb]].
+Qed.
+
+Lemma ksorted_nodup l : ksorted l -> NoDup (map key l).
+Proof.
+  induction l as [|a r IH]; simpl; intros H; [constructor|]. destruct H as [Ha S]. constructor; [|apply IH; exact S].
+  intros I. apply in_map_iff in I. destruct I as (b & E & Hb). specialize (Ha b Hb). lia.
+Qed.
+
+Definition linv (st : lstate) : Prop :=
+  ksorted (l_dpre st ++ l_dpost st) /\ ksorted (l_rest st) /\
+  (forall d x, In d (l_dpre st) -> In x (l_rest st) -> key d < key x).
+
+Lemma advance_unique x : forall dpost w dpre w' p q,
+  advance false w x dpre dpost = (w', Some (p, q)) -> (forall d, In d dpre -> key d < key x) ->
+  p ++ q = dpre ++ dpost /\ (forall d, In d p -> key d < key x) /\
+  match q with [] => True | d :: _ => ~ key d < key x end.
+Proof.
+  induction dpost as [|d r IH]; simpl; intros w dpre w' p q H Hp.
+  - inversion H; subst. auto.
+  - destruct (step_func w) as [w1|]; [|discriminate]. unfold is_ordered in H.
+    destruct (Z.ltb_spec (key d) (key x)) as [L|G].
+    + apply IH in H.
+      * destruct H as (E & P & Q). split; [rewrite E, <- app_assoc; reflexivity|auto].
+      * intros e He. apply in_app_or in He. destruct He as [He|[<-|[]]]; [apply Hp; exact He|exact L].
+    + inversion H; subst. split; [reflexivity|]. split; [exact Hp|lia].
+Qed.
+
+Lemma ksorted_single x : ksorted [x].
+Proof. simpl. split; [intros b []|exact I]. Qed.
+
+Lemma ksorted_snoc p x : ksorted p -> (forall d, In d p -> key d < key x) -> ksorted (p ++ [x]).
+Proof.
+  intros Sp P. apply ksorted_app. split; [exact Sp|]. split; [apply ksorted_single|].
+  intros a b Ha [<-|[]]. apply P. exact Ha.
+Qed.
+
+Lemma linv_same (p q r : list item) x :
+  ksorted p -> ksorted q -> (forall a b, In a p -> In b q -> key a < key b) ->
+  (forall d, In d p -> key d < key x) -> (forall b, In b r -> key x < key b) -> ksorted r ->
+  ksorted (p ++ q) /\ ((forall b, In b r -> key x < key b) /\ ksorted r) /\
+  (forall d y, In d p -> x = y \/ In y r -> key d < key y).
+Proof.
+  intros Sp Sq C P Hx Sr. split; [apply ksorted_app; auto|]. split; [auto|].
+  intros d y Hd [<-|Hy]; [apply P; exact Hd|]. specialize (P d Hd). specialize (Hx y Hy). lia.
+Qed.
+
+Lemma linv_inserted (p q r : list item) x :
+  ksorted p -> ksorted q -> (forall a b, In a p -> In b q -> key a < key b) ->
+  (forall d, In d p -> key d < key x) -> (forall b, In b q -> key x < key b) ->
+  (forall b, In b r -> key x < key b) -> ksorted r ->
+  ksorted ((p ++ [x]) ++ q) /\ ksorted r /\ (forall d y, In d (p ++ [x]) -> In y r -> key d < key y).
+Proof.
+  intros Sp Sq C P Q Hx Sr. split; [|split; [exact Sr|]].
+  - apply ksorted_app. split; [apply ksorted_snoc; assumption|]. split; [exact Sq|].
+    intros a b Ha Hb. apply in_app_or in Ha. destruct Ha as [Ha|[<-|[]]]; [apply C; assumption|apply Q; exact Hb].
+  - intros d y Hd Hy. apply in_app_or in Hd. specialize (Hx y Hy).
+    destruct Hd as [Hd|[<-|[]]]; [specialize (P d Hd); lia|exact Hx].
+Qed.
+
+Lemma lstep_linv c st : linv st -> linv (lstep c false st).
+Proof.
+  unfold linv, lstep. destruct st as [kept rest dpre dpost w stat shape]. simpl.
+  destruct stat; simpl; try tauto.
+  destruct rest as [|x r]; simpl; [tauto|].
+  intros (Sd & (Hx & Sr) & C).
+  destruct (advance false w x dpre dpost) as [w1 [[p q]|]] eqn:Ea; simpl; [|repeat split; auto].
+  apply advance_unique in Ea; [|intros d Hd; apply C; [exact Hd|left; reflexivity]].
+  destruct Ea as (E & P & Q). rewrite <- E in Sd. apply ksorted_app in Sd. destruct Sd as (Sp & Sq & Cpq).
+  pose proof (linv_same p q r x Sp Sq Cpq P Hx Sr) as Same.
+  destruct q as [|d dr]; simpl.
+  - (* dstIter == end: insert at the end *)
+    destruct (step_alloc w1) as [w3|]; simpl; [|exact Same].
+    destruct (pop shape) as [internal sh].
+    destruct (extract_reloc c w3 x (pred_of kept internal)) as [w4 [e|]] eqn:Ee; simpl; [|exact Same].
+    apply extract_reloc_value in Ee. subst e.
+    apply (linv_inserted p [] r x); auto. intros b [].
+  - destruct (step_func w1) as [w2|]; simpl; [|exact Same].
+    destruct (Z.ltb_spec (key x) (key d)) as [L|G]; simpl.
+    + (* key < GetKey( *dstIter): insert before dstIter *)
+      destruct (step_alloc w2) as [w3|]; simpl; [|exact Same].
+      destruct (pop shape) as [internal sh].
+      destruct (extract_reloc c w3 x (pred_of kept internal)) as [w4 [e|]] eqn:Ee; simpl; [|exact Same].
+      apply extract_reloc_value in Ee. subst e.
+      apply (linv_inserted p (d :: dr) r x); auto.
+      intros b [<-|Hb]; [exact L|]. simpl in Sq. destruct Sq as [Hd _]. specialize (Hd b Hb). lia.
+    + (* equal keys: the item is refused, both iterators advance *)
+      split; [|split; [exact Sr|]].
+      * rewrite <- app_assoc. simpl. apply ksorted_app. auto.
+      * intros e y He Hy. apply in_app_or in He. specialize (Hx y Hy). destruct He as [He|[<-|[]]]; [specialize (P e He); lia|lia].
+Qed.
+
+Theorem lmerge_unique_nodup c src dst w shape n : ksorted src -> ksorted dst ->
+  NoDup (map key (ldst_items (lrun c false n (linit src dst w shape)))).
+Proof.
+  intros Ss Sd. apply ksorted_nodup.
+  assert (G : linv (lrun c false n (linit src dst w shape))).
+  { induction n; simpl; [|apply lstep_linv; exact IHn].
+    unfold linv. simpl. repeat split; auto. intros d x []. }
+  exact (proj1 G).
+Qed.
